@@ -1903,3 +1903,64 @@ Lemma ready_ok s : Inv s ->
   Forall (fun p => fst p = true -> snd p = true) (readys s) /\
   (w s = WRes -> exists r, val s = Some r /\ (slot s = SetV r \/ slot s = Moved)).
 Proof. intros I. split; [apply (I_log s I)|apply word_res; exact I]. Qed.
+
+(* ---- the statements of props/Properties_C06.v, for a state satisfying the invariant ---------------------------------- *)
+
+Lemma each_once_all s : Inv s ->
+  (forall c e, nth_error (cs s) c = Some e ->
+     match cst e with
+     | CRan | CDone => if is_cb_kind (ck e) then exists r, cv e = [Some r] /\ val s = Some r else cv e = []
+     | _ => cv e = []
+     end) /\
+  (forall c e, nth_error (cs s) c = Some e -> cv e <> [] ->
+     w s = WRes /\ exists r, val s = Some r /\ fpc s <> F0 /\ fpc s <> F1) /\
+  (forall v, In v (iruns s) -> exists r, v = Some r /\ val s = Some r) /\
+  nfail s = length (iruns s) + count inl_pc (hs s) + count cinl (cs s) /\
+  (forall c e, nth_error (cs s) c = Some e -> fpc s = FD2 \/ fpc s = FD1 \/ fpc s = FDone ->
+     cst e = CHeld \/ cst e = CRan \/ cst e = CDone) /\
+  (terminal s = true ->
+     (forall c e, nth_error (cs s) c = Some e -> ck e <> KEvent -> exists r, cv e = [Some r] /\ val s = Some r) /\
+     nfail s = length (iruns s) + count cinl (cs s)).
+Proof.
+  intros I.
+  split; [intros c e; apply cb_once; exact I|].
+  split; [intros c e; apply cb_after_set; exact I|].
+  split; [intros v Hv; apply (proj1 (values_ok s I)); apply in_or_app; right; exact Hv|].
+  split; [exact (I_fail s I)|].
+  split; [intros c e; apply none_left; exact I|].
+  intros T. destruct (terminal_exact s I T) as [A [B _]]. split; [exact A|exact B].
+Qed.
+
+Lemma no_moved_all s : Inv s ->
+  (forall v, In v (gots s ++ iruns s) -> exists r, v = Some r /\ val s = Some r) /\
+  (forall c e v, nth_error (cs s) c = Some e -> In v (cv e) -> exists r, v = Some r /\ val s = Some r) /\
+  (slot s = Moved ->
+     (forall h pc, nth_error (hs s) h = Some pc -> pc = HSpent \/ pc = HDead) /\
+     (forall c e, nth_error (cs s) c = Some e -> cst e = CDone)) /\
+  (forall h, nth_error (hs s) h = Some (HOut true) ->
+     refs s = 1 /\ fpc s = FDone /\ count live (hs s) = 1 /\ count held (cs s) = 0) /\
+  (forall c e dc, nth_error (cs s) c = Some e -> cst e = CConn true dc ->
+     refs s = 2 /\ fpc s = FLast c /\ count live (hs s) = 0 /\ count held (cs s) = 0).
+Proof.
+  intros I. destruct (values_ok s I) as [V1 V2]. destruct (move_decisions_exclusive s I) as [M1 M2].
+  split; [exact V1|split; [exact V2|split; [apply moved_only_when_alone; exact I|split; [exact M1|exact M2]]]].
+Qed.
+
+Lemma refs_all s : Inv s ->
+  under s = 0 /\ uaf s = 0 /\ frees s <= 1 /\ (frees s = 1 <-> refs s = 0) /\ (alive s = false <-> refs s = 0) /\
+  refs s = prom (fpc s) + count live (hs s) + count held (cs s) /\
+  (alive s = false -> w s = WRes /\ fpc s = FDone) /\
+  (terminal s = true -> refs s = 0 /\ alive s = false /\ frees s = 1).
+Proof.
+  intros I. destruct (refs_ok s I) as [A [B [C [D [E [F G]]]]]].
+  repeat (split; [assumption|]). intros T. apply (terminal_exact s I T).
+Qed.
+
+(* what the readiness rule before the fix allows (S1): a concrete run of the same model with that rule *)
+Lemma old_rule_witness :
+  exists tr s, run_g false (init true) tr = Some s /\
+    In (true, false) (readys s) /\ In None (gots s) /\ slot s = Unset.
+Proof.
+  exists [ECopy 0; EAttL 0 (PCb KInl) OE; ECas 0 true; EReady 1 OL; ETouchL 1 false OL; EGot 1].
+  eexists. split; [vm_compute; reflexivity|]. vm_compute. repeat split; auto.
+Qed.
